@@ -122,9 +122,16 @@ def _install():
         def uuid1(cls):
             cls.n[0] += 1
             return cls._U('%032x' % ((cls.n[0] * 7919) % 1009))   # key order is NOT chronological
-    names = [n for n, v in vars(S).items() if getattr(v, '__name__', None) == 'uuid' or n == 'uuid']
+    import uuid as _real_uuid
+    names = [n for n, v in vars(S).items() if v is _real_uuid or n == 'uuid' or v is FakeUuidMod or getattr(v, '__name__', None) == 'FakeUuidMod']
     for n in names:
         setattr(S, n, FakeUuidMod)
+    for n, v in list(vars(S).items()):   # the generator functions imported by name
+        if v is _real_uuid.uuid1 or v is _real_uuid.uuid4 or getattr(v, '_mc_fake_uuid', False):
+            f = lambda *a, **k: FakeUuidMod.uuid1()
+            f._mc_fake_uuid = True
+            setattr(S, n, f)
+            names.append(n)
     FakeUuidMod.n[0] = 0
     return names
 
